@@ -48,6 +48,12 @@ def build(d):
         for p in qn.split("."):
             o = getattr(o, p)
         return o
+    if t == "sync":
+        return _native_sync(d)
+    if t == "ntuple":
+        mod, qn = d["cls"].split(":")
+        cls = getattr(importlib.import_module(mod), qn)
+        return cls(**{k: build(v) for k, v in d["fields"].items()})
     if t == "obj":
         mod, qn = d["cls"].split(":")
         cls = importlib.import_module(mod)
@@ -62,6 +68,88 @@ def build(d):
             o.__dict__[k] = o.__dict__[src][idx] if idx is not None else o.__dict__[src]
         return o
     raise ValueError("cannot rebuild %r" % (d,))
+
+
+def _native_sync(d):
+    """real queue / lock / event objects that also answer the `.st` view the contracts read"""
+    import queue
+    k = d["kind"]
+    if k == "queue":
+        class Q(queue.Queue):
+            @property
+            def st(self):
+                return {"items": list(self.queue)}
+        q = Q()
+        for x in d.get("items", []):
+            q.put(build(x))
+        for _ in range(int(d.get("extra") or 0)):
+            q.put(object())
+        return q
+    if k == "lock":
+        class L(object):
+            def __init__(self):
+                self._l = threading.Lock()
+
+            def acquire(self, *a, **kw):
+                return self._l.acquire(*a, **kw)
+
+            def release(self):
+                return self._l.release()
+
+            def locked(self):
+                return self._l.locked()
+
+            __enter__ = acquire
+
+            def __exit__(self, *a):
+                self._l.release()
+
+            @property
+            def st(self):
+                return {"held": self._l.locked()}
+        l = L()
+        if d.get("st", {}).get("held"):
+            l.acquire()
+        return l
+    if k == "event":
+        class E(threading.Event):
+            @property
+            def st(self):
+                return {"flag": self.is_set()}
+        e = E()
+        if d.get("st", {}).get("flag"):
+            e.set()
+        return e
+    if k == "barrier":
+        return threading.Barrier(1)
+    raise ValueError("cannot rebuild sync %r" % (d,))
+
+
+def install_loggers(api, current):
+    """natively, the ghost event log is filled by wrappers around the real functions whose contracts
+    declare `log_entry` (the function under replay itself is not wrapped)"""
+    from pyvc import spec
+    spec._GHOST["log"] = []
+    for c in api.REGISTRY:
+        if c.log_entry is None or c is current or c.target == current.target:
+            continue
+        parts = c.target.split(".")
+        owner = importlib.import_module(".".join(parts[:-2]))
+        owner = getattr(owner, parts[-2])
+        orig = c.target_obj
+        if getattr(orig, "_pyvc_logged", False):
+            continue
+
+        def wrapper(*a, _orig=orig, _c=c, **kw):
+            try:
+                ba = inspect.signature(_orig).bind(*a, **kw)
+                ba.apply_defaults()
+                spec._GHOST["log"].append(call_spec(_c.log_entry, dict(ba.arguments)))
+            except Exception as e:  # noqa
+                spec._GHOST["log"].append(("log-error", repr(e)))
+            return _orig(*a, **kw)
+        wrapper._pyvc_logged = True
+        setattr(owner, parts[-1], wrapper)
 
 
 def call_spec(fn, ns):
@@ -94,6 +182,7 @@ def main():
             val = build(v)
             setattr(owner, attr, val)
             ns["state_" + attr] = val
+        install_loggers(api, c)
         if c.setup_spec is not None:
             call_spec(c.setup_spec, ns)
         if getattr(c, "snapshot_spec", None) is not None:
